@@ -88,6 +88,8 @@ func (sc *Scenario) judge(r *vrt.Result) string {
 		return "deadlock: " + r.Deadlock
 	case len(r.Leaks) > 0:
 		return "leak: " + strings.Join(r.Leaks, "; ")
+	case r.LateFail != "":
+		return r.LateFail
 	}
 	if r.HorizonHit {
 		return ""
@@ -420,6 +422,46 @@ func replay(path string) int {
 		}
 		fmt.Printf("VIOLATION property=%s replay=%s\n  %s\n", v.Property, path, msg)
 		return 1
+	}
+	if v.Property == "C12" && strings.HasPrefix(v.Scenario, "C12/deep/") {
+		for _, c := range c12DeepCases() {
+			if "C12/deep/"+c.name == v.Scenario {
+				var msg string
+				vrt.Execute(vrt.Options{}, func() { msg = c.run() })
+				if msg != "" {
+					fmt.Printf("VIOLATION property=C12 replay=%s\n  %s\n", path, msg)
+					return 1
+				}
+				fmt.Println("replay: no violation on this tree")
+				return 0
+			}
+		}
+	}
+	if v.Property == "C12" && strings.HasPrefix(v.Scenario, "C12/history/") {
+		var hist []outcome
+		for _, o := range c12Outcomes() {
+			if o.v == 0 || o.err == nil {
+				hist = append(hist, o)
+			}
+		}
+		for variant := 0; variant < 3; variant++ {
+			for _, ks := range orderedSubsets() {
+				conds := c12Conds(ks, variant)
+				if "C12/history/"+condStr(conds) != v.Scenario {
+					continue
+				}
+				for _, first := range hist {
+					var msg string
+					vrt.Execute(vrt.Options{}, func() { msg = c12History(conds, first, hist) })
+					if msg != "" {
+						fmt.Printf("VIOLATION property=C12 replay=%s\n  %s\n", path, msg)
+						return 1
+					}
+				}
+				fmt.Println("replay: no violation on this tree")
+				return 0
+			}
+		}
 	}
 	if v.Property == "C12" {
 		for variant := 0; variant < 6; variant++ {
